@@ -258,8 +258,29 @@ func (w *Walker) deltaEvent(fr *Frame, st *ssa.Store) *Event {
 // siteMust: ins is executed on every path from its function's entry to a success exit.
 func siteMust(ins ssa.Instruction) bool {
 	f := ins.Parent()
+	if alt := logicalAlternatives[ins]; len(alt) > 0 {
+		// the write and its recognised alternative (Delete when the new value is zero)
+		// together are the logical update
+		return mustPass(f, func(x ssa.Instruction) bool {
+			if x == ins {
+				return true
+			}
+			for _, a := range alt {
+				if x == a {
+					return true
+				}
+			}
+			return false
+		})
+	}
 	return mustPass(f, func(x ssa.Instruction) bool { return x == ins })
 }
+
+// logicalAlternatives: for a store write, the sites that stand for the same logical
+// update on the other side of a branch on the written value (see C15: a balance that
+// reaches zero is deleted instead of stored as 0). Filled by the rule that recognises
+// the idiom, for the duration of its run.
+var logicalAlternatives = map[ssa.Instruction][]ssa.Instruction{}
 
 // chainMust: the event's site is must in its frame and every call site up the
 // chain is must in its caller, with the callee's error (if any) propagated as a
